@@ -90,6 +90,14 @@ func runC07Process(c *sim.Ctx, t *testing.T) {
 							return
 						}
 					}
+					if r.Class == "action-no-branch" && r.ActionFailed && serr == nil && stride != nil && stride.To != nil {
+						// the failure was handed to the branches and none took it: the error node, and
+						// the action's own error text still in the bindings (as actionError)
+						if stride.To.NodeName != "error" || !ref.HasKeys(stride.To.Bs, "error", "actionError") {
+							c.Violate("surfaced:step:action-error-unhandled", "Step at %s: the action failed, no branch handled that, and the result %s does not carry the action's error text\nspec: %s", desc, strideCanon(stride, serr), specJSON(gs))
+							return
+						}
+					}
 					// Walk
 					var pend []interface{}
 					if msg != nil {
